@@ -641,6 +641,62 @@ def run_world(ctx, w, hook, rng):
         validator_scenario(ctx, w, hook, for_validator)
 
 
+def churn(ctx, w, rng, rounds=10):
+    """Schema objects come and go: two different schemas that import the
+    same component are loaded, used for one %import load and dropped, over
+    and over, so that a later schema object sits where an earlier one sat.
+    Each load sees its own schema's implementers and the imported ones."""
+    import copy
+    import gc
+    import ZConfig
+    res = ctx.res
+    name, ctypes = w.components[0]
+    imp = [t["name"] for t in ctypes if t.get("implements")]
+    mb = copy.deepcopy(w.model)
+    mb["types"].insert(len(w.abstracts), {
+        "kind": "section", "name": "zcv-b-only", "keytype": None,
+        "datatype": None, "extends": None, "implements": w.abstracts[0],
+        "children": [_key_alpha()]})
+    head = "<import package='%s'/>" % w.schema_level[0] \
+        if w.schema_level else None
+    xml_b = family.render_xml(
+        mb, abstract_import=(w.base, "abstract.xml") if w.base else None,
+        head_xml=head)
+    text_a = "%%import %s\n<holder n1>\n</holder>\n" % name
+    text_b = "%%import %s\n<zcv-b-only n1>\n  alpha 42\n</zcv-b-only>\n" \
+        % name
+    if imp:
+        # (the first abstract slot may not be the one the imported type
+        # implements: use it only inside a holder when it fits)
+        pass
+    for k in range(rounds):
+        for xml, text, tag in ((w.xml, text_a, "A"), (xml_b, text_b, "B")):
+            try:
+                schema = ZConfig.loadSchemaFile(io.StringIO(xml))
+            except Exception as e:  # noqa
+                res.count("churn_schema_failed")
+                return
+            o = outcome.load_text(schema, text)
+            res.evaluations += 1
+            res.count("churn_loads")
+            if o[0] != "ok":
+                res.violate(
+                    "refused-although-admitted",
+                    {"xml": xml, "text": text, "via": "churn", "round": k,
+                     "components": [[n, ts] for n, ts in w.components],
+                     "imports": dict(w.imports),
+                     "schema_level": list(w.schema_level)
+                     if w.schema_level else None,
+                     "model": mb if tag == "B" else w.model},
+                    "accept", list(o[:6]),
+                    detail="round %d schema %s (schema objects created and "
+                    "dropped in turn): text=%r -> %s" % (k, tag, text, o[5]),
+                    vsig="churn|%s" % o[2])
+                return
+            del schema, o
+            gc.collect()
+
+
 def run_shard(ctx):
     space = packages.PackageSpace(os.path.join(ctx.tmp, "pkgs"),
                                   "c12s%d" % ctx.shard)
@@ -675,6 +731,10 @@ def run_shard(ctx):
                 continue
             ctx.res.count("worlds")
             run_world(ctx, w, hook, rng)
+            if w.components and rng.random() < 0.2:
+                hook.phase = "churn"
+                churn(ctx, w, rng)
+                hook.phase = "schema"
     finally:
         hook.remove()
         space.close()
